@@ -347,9 +347,10 @@ impl MqttShared {
         }
     }
 
-    fn enable_streaming(&self, pkt: &Publish, payload: Option<&Bytes>) {
+    /// Payload bytes that are still owed once the publish header is written
+    fn streaming_size(pkt: &Publish, payload: Option<&Bytes>) -> Option<num::NonZeroU32> {
         let len = payload.map_or(0, Bytes::len);
-        self.streaming_remaining.set(num::NonZeroU32::new(pkt.payload_size - len as u32));
+        num::NonZeroU32::new(pkt.payload_size - len as u32)
     }
 
     pub(super) fn encode_packet(&self, pkt: codec::Packet) -> Result<(), error::EncodeError> {
@@ -363,8 +364,11 @@ impl MqttShared {
         payload: Option<Bytes>,
     ) -> Result<(), error::EncodeError> {
         self.check_streaming()?;
-        self.enable_streaming(&pkt, payload.as_ref());
-        self.io.encode(Encoded::Publish(pkt, payload), &self.codec)
+        // streaming starts only if the header has been written
+        let remaining = Self::streaming_size(&pkt, payload.as_ref());
+        self.io.encode(Encoded::Publish(pkt, payload), &self.codec)?;
+        self.streaming_remaining.set(remaining);
+        Ok(())
     }
 
     pub(super) fn encode_publish_payload(
@@ -542,7 +546,7 @@ impl MqttShared {
         payload: Option<Bytes>,
     ) -> Result<pool::Receiver<Ack>, SendPacketError> {
         self.check_streaming()?;
-        self.enable_streaming(&pkt, payload.as_ref());
+        let remaining = Self::streaming_size(&pkt, payload.as_ref());
 
         let mut queues = self.queues.borrow_mut();
         if queues.inflight_ids.contains(&id) {
@@ -550,6 +554,7 @@ impl MqttShared {
         } else {
             match self.io.encode(Encoded::Publish(pkt, payload), &self.codec) {
                 Ok(()) => {
+                    self.streaming_remaining.set(remaining);
                     let (tx, rx) = self.pool.queue.channel();
                     queues.inflight.push_back((id, Some(tx), ack));
                     queues.inflight_ids.insert(id);
@@ -568,7 +573,7 @@ impl MqttShared {
         payload: Option<Bytes>,
     ) -> Result<(), SendPacketError> {
         self.check_streaming()?;
-        self.enable_streaming(&pkt, payload.as_ref());
+        let remaining = Self::streaming_size(&pkt, payload.as_ref());
 
         let mut queues = self.queues.borrow_mut();
         if queues.inflight_ids.contains(&id) {
@@ -576,6 +581,7 @@ impl MqttShared {
         } else {
             match self.io.encode(Encoded::Publish(pkt, payload), &self.codec) {
                 Ok(()) => {
+                    self.streaming_remaining.set(remaining);
                     queues.inflight.push_back((id, None, ack));
                     queues.inflight_ids.insert(id);
                     Ok(())
